@@ -201,7 +201,7 @@ PROPS['C11'] = dict(
     technique='runtime monitoring: independent recursive tree comparison over generated metadata trees attached to generated geometries; ASan/UBSan slice',
     level='exploration',
     level_text=('Generated metadata trees (depth 0-8, up to 40 entries per level, int/double/array/string/binary entries of 0..64 KiB, names of length 0,1,254,255,256,300 with arbitrary bytes incl. NUL and >= 0x80, '
-                'names reused across levels, 0-5 attribute-metadata blocks with arbitrary unique ids) are attached to meshes and point clouds and round-tripped under every encoding method; an independent walk over '
+                'names reused across levels, 0-5 attribute-metadata blocks with arbitrary unique ids, 0-2 more attached through PointCloud::AddAttributeMetadata(att_id) on the finished geometry) are attached to meshes and point clouds and round-tripped under every encoding method; an independent walk over '
                 'entries()/sub_metadatas()/attribute_metadatas() requires identical names, byte-exact values, nesting and attribute ids whenever the encoder reports success; refusals are classified by cause.'),
     level_note='Sampled. Nesting deeper than 8 is outside the property quantifier and not driven.',
     rule='one case = (small geometry, option vector, metadata tree). Non-trivial = encoder accepted and the tree has >= 1 entry / sub-metadata / attribute metadata; distinct = hash of the stream.',
